@@ -474,7 +474,7 @@ func ruleG8(p *Prog, r *Report) {
 							inLoop = true
 						}
 					}
-					if f != pl {
+					if f != pl && !calledOnceOutsideLoops(p, f, pl) {
 						inLoop = true // a second place that takes '+'
 					}
 				}
@@ -1414,4 +1414,41 @@ func cursorOf(p *Prog, c invField) bool {
 		}
 	}
 	return false
+}
+
+// calledOnceOutsideLoops: helper is called at exactly one place in the module, that place is in `from` and
+// outside every loop, and helper is never used as a value (a helper that a function delegates one step to).
+func calledOnceOutsideLoops(p *Prog, helper, from *ssa.Function) bool {
+	sites := 0
+	for _, g := range p.RList {
+		for _, b := range g.Blocks {
+			for _, in := range b.Instrs {
+				if mc, ok := in.(*ssa.MakeClosure); ok && mc.Fn == ssa.Value(helper) {
+					return false
+				}
+				ci, ok := in.(ssa.CallInstruction)
+				if !ok {
+					continue
+				}
+				for _, a := range ci.Common().Args {
+					if a == ssa.Value(helper) {
+						return false
+					}
+				}
+				if ci.Common().StaticCallee() != helper {
+					continue
+				}
+				sites++
+				if g != from {
+					return false
+				}
+				for _, h := range g.Blocks {
+					if isLoopHeader(h) && naturalLoop(h)[b] {
+						return false
+					}
+				}
+			}
+		}
+	}
+	return sites == 1
 }
